@@ -2,7 +2,7 @@
 # Self-test of the gosync may-write analysis (sync_globals_mutated / sync_globals_method_called).
 # Every case runs in a scratch worktree /tmp/gs_case of /repo's HEAD which is removed afterwards.
 #   1. unchanged library: all definitions identical to the OLD (syntactic) analyser
-#   2. behaviour-preserving refactorings /tmp/benign_*/b*/patch.diff: no alarm
+#   2. behaviour-preserving refactorings benign/*/patch.diff: no alarm
 #   3. real mutations (inline edits): reported
 #   4. seeded C15/C16 changes: old vs new facts, nothing the old analyser flagged becomes invisible
 # usage: tools/gosync_selftest.sh [old gosync binary]   (default build/gosync_old)
@@ -15,7 +15,12 @@ OUT=$(mktemp -d /tmp/gs_selftest.XXXXXX)
 FAILS=0
 
 (cd "$DEV/go/gosync" && go build -o "$NEW" .) || { echo "FAIL build"; exit 1; }
-[ -x "$OLD" ] || { echo "old analyser binary $OLD missing"; exit 1; }
+if [ ! -x "$OLD" ]; then
+	# build the old (purely syntactic) analyser from the history of this repository
+	T=$(mktemp -d /tmp/gs_old.XXXXXX); git -C "$DEV" show 3ae5065:go/gosync/main.go > $T/main.go; cp "$DEV/go/gosync/go.mod" $T/
+	(cd $T && go build -o "$OLD" .) || { echo "cannot build the old analyser"; exit 1; }
+	rm -rf $T
+fi
 
 cleanup() {
 	git -C /repo worktree remove --force $CASE >/dev/null 2>&1
@@ -46,7 +51,7 @@ benign_ok() { # mutated = [] and method_called subset of the two encoders
 echo "== 1. unchanged library: new output = old output (comment lines excepted)"
 fresh
 facts "$OLD" old; facts "$NEW" new
-if diff <(grep -v '^(\*' "$OUT/old.v") <(grep -v '^(\*' "$OUT/new.v") >"$OUT/d.txt" &&
+if diff <(grep -v '^(\*\|sync_api_slices_appended' "$OUT/old.v") <(grep -v '^(\*\|sync_api_slices_appended' "$OUT/new.v") >"$OUT/d.txt" &&
 	[ "$(def new sync_globals_mutated)" = "[]" ] &&
 	[ "$(def new sync_globals_method_called)" = '["datamatrix.ec"; "qr.ec"]' ]; then
 	result PASS unchanged "mutated=$(def new sync_globals_mutated) method_called=$(def new sync_globals_method_called)"
@@ -55,9 +60,9 @@ else
 fi
 
 echo "== 2. benign refactorings: mutated=[] and method_called within {datamatrix.ec, qr.ec}"
-for pd in /tmp/benign_*/b*/patch.diff; do
+for pd in $DEV/benign/*/patch.diff; do
 	[ -f "$pd" ] || continue
-	name=$(echo "$pd" | sed 's|/tmp/benign_\([^/]*\)/\([^/]*\)/patch.diff|\1/\2|')
+	name=$(basename $(dirname "$pd"))
 	fresh
 	if ! git -C $CASE apply "$pd" 2>"$OUT/apply.log"; then result FAIL "benign $name" "patch does not apply"; continue; fi
 	facts "$OLD" old; facts "$NEW" new
@@ -177,7 +182,7 @@ for pd in /verif/seeded/C15-m*/patch.diff /verif/seeded/C16-m*/patch.diff; do
 		(def new sync_globals_mutated; def new sync_globals_method_called) | grep -q "\"$n[\"(]" || lost="$lost $n"
 	done
 	other=same
-	diff <(grep -v '^(\*\|sync_globals_' "$OUT/old.v") <(grep -v '^(\*\|sync_globals_' "$OUT/new.v") >/dev/null || other=DIFFERENT
+	diff <(grep -v '^(\*\|sync_globals_\|sync_api_slices_appended' "$OUT/old.v") <(grep -v '^(\*\|sync_globals_\|sync_api_slices_appended' "$OUT/new.v") >/dev/null || other=DIFFERENT
 	detail="old: mut=$(def old sync_globals_mutated) mc=$(def old sync_globals_method_called) | new: mut=$(def new sync_globals_mutated) mc=$(def new sync_globals_method_called) | other facts $other"
 	if [ -z "$lost" ] && [ $other = same ]; then result PASS "$name" "$detail"; else result FAIL "$name" "lost:$lost $detail"; fi
 done
